@@ -378,7 +378,7 @@ func replayFullSync(hist []FsOp) (res fsResult) {
 	}
 	sort.Strings(tl)
 	dsA := jw.W.Dsm.GetDataset(h.DsName("A"))
-	res.key = fmt.Sprintf("live=%s|tomb=%s|active=%v,%s,%v|seen=%s|jobOpen=%v|impl=%v", keys(live), strings.Join(tl, ","), m.active, m.id, m.byJob, keys(m.seen), jobOpen, dsA.FullSyncStarted())
+	res.key = fmt.Sprintf("live=%s|tomb=%s|active=%v,%s,%v|seen=%s|jobOpen=%v|impl=%s", keys(live), strings.Join(tl, ","), m.active, m.id, m.byJob, keys(m.seen), jobOpen, dsA.VFullSyncState())
 	res.outcome = res.key
 	return
 }
